@@ -203,19 +203,22 @@ def dropSubstr (pat : List Char) : Nat → List Char → List Char
     later replacement consumes) -/
 def replaceChar (c : Char) : List Char :=
   if c == ' ' || c == '-' then ['_']
-  else if "()[].,:;\"'^|".toList.contains c then []
-  else if c == '=' then "eq".toList
-  else if c == '>' then "lg".toList
-  else if c == '<' then "sm".toList
-  else if c == '+' then "plus".toList
-  else if c == '*' then "star".toList
-  else if c == '/' then "div".toList
+  else if ['(', ')', '[', ']', '.', ',', ':', ';', '"', '\'', '^', '|'].contains c then []
+  else if c == '=' then ['e', 'q']
+  else if c == '>' then ['l', 'g']
+  else if c == '<' then ['s', 'm']
+  else if c == '+' then ['p', 'l', 'u', 's']
+  else if c == '*' then ['s', 't', 'a', 'r']
+  else if c == '/' then ['d', 'i', 'v']
   else [c]
+
+/-- `"__SBML_DOT__"` -/
+def sbmlDot : List Char := ['_', '_', 'S', 'B', 'M', 'L', '_', 'D', 'O', 'T', '_', '_']
 
 def nameToPy (name : String) : String :=
   let cs := unescapeChars (name.length + 1) name.toList
   let cs := if pyKeywords.contains (String.ofList cs) then cs ++ ['_'] else cs
-  let cs := dropSubstr "__SBML_DOT__".toList (cs.length + 1) cs
+  let cs := dropSubstr sbmlDot (cs.length + 1) cs
   let cs := cs.flatMap replaceChar
   match cs with
   | [] => ""
